@@ -655,9 +655,13 @@ def lift(t, budget=200):
     COND = ("if", "match", "phi")
 
     def is_cond(x):
-        return isinstance(x, tuple) and x and ((x[0] == "if" and len(x) == 4) or (x[0] == "match" and len(x) == 3 and isinstance(x[2], tuple)) or (x[0] == "phi" and len(x) == 3))
+        return isinstance(x, tuple) and x and ((x[0] == "if" and len(x) == 4) or (x[0] == "match" and len(x) == 3 and isinstance(x[2], tuple)) or (x[0] == "phi" and len(x) == 3)
+                                               or (x[0] == "returns" and len(x) == 2 and isinstance(x[1], tuple)))
 
     def rebuild(c, f):
+        if c[0] == "returns":
+            # the value of a helper with early returns, used as an operand: each exit's value in the operand's place
+            return ("returns", tuple((cd, f(v)) for cd, v in c[1]))
         if c[0] == "if":
             return ("if", c[1], f(c[2]), f(c[3]))
         if c[0] == "match":
